@@ -2,7 +2,7 @@
 from ..core import Run
 from .. import xengine
 
-ENUM = ['h_e_route', 'h_e_auto', 'h_e_two_calls'] + ['h_e_parse_%d' % i for i in range(11)]
+ENUM = ['h_e_route', 'h_e_auto', 'h_e_two_calls', 'h_e_early_exit'] + ['h_e_parse_%d' % i for i in range(11)]
 SYM = ['h_s_stdin', 'h_s_minisat']
 
 
